@@ -111,10 +111,12 @@ class LDMMaintenance:
                 return None
             updated_data_container = dict(data_container)
             updated_data_container["dataObject"] = data_object
-            self.data_containers.update(
+            if not self.data_containers.update(
                 updated_data_container,
                 index=data_object_id,
-            )
+            ):
+                # The data container has been deleted since it was read.
+                return None
             self.logging.debug("Data container updated: %s", data_object_id)
         except (KeyError, json.decoder.JSONDecodeError) as e:
             print(f"Error updating data container: {str(e)}")
